@@ -36,7 +36,8 @@ fn reserved_words() -> &'static BTreeSet<&'static str> {
     static WORDS: LazyLock<BTreeSet<&'static str>> = LazyLock::new(|| {
         BTreeSet::from([
             "let", "module", "func", "out", "assert", "self", "import", "include", "as", "map",
-            "filter", "convert", "fail", "NULL", "in", "is", "TRACE",
+            "filter", "convert", "fail", "NULL", "in", "is", "TRACE", "not", "select", "reduce",
+            "constraint",
         ])
     });
     &WORDS
